@@ -46,6 +46,9 @@ impl Country {
         use country_boundaries::CountryBoundaries;
         use std::io::Read;
 
+        #[cfg(ohrs_verif_loom)]
+        use crate::utils::verif_sync::LazyLock;
+
         static BOUNDARIES: LazyLock<CountryBoundaries> = LazyLock::new(|| {
             let mut buffer = Vec::new();
 
@@ -78,6 +81,9 @@ impl Country {
     /// assert!(holidays_fr.get_public().contains(date));
     /// ```
     pub fn holidays(self) -> ContextHolidays {
+        #[cfg(ohrs_verif_loom)]
+        use crate::utils::verif_sync::LazyLock;
+
         fn decode_holidays_db(
             countries: &'static str,
             encoded_data: &'static [u8],
